@@ -83,7 +83,11 @@ Sub-checks
       * the empty string is a spelling of 'default' in every slot ("If the color is not given then 'default' will
         be assumed", "An empty string will be treated the same as 'default'"); only ``None`` in the mono / high
         slots means "no settings" / "use the basic value".  A late ``register_palette`` may be made with the *same
-        list object* as the first one, edited in place ("late_same").
+        list object* as the first one, edited in place ("late_same");
+      * entry *names* are attribute names like any other ("name: str | None"): ordinary strings, ``None`` (the entry
+        every Screen starts with as default/default; registering it anew is how unmarked text, padding and fill get
+        colours), ``''``, ``0`` and a tuple.  A cell naming a defined entry -- whatever the name's type or truth value
+        -- must show that entry; the same names left undefined fall back to the default.
 """
 from __future__ import annotations
 
@@ -138,7 +142,11 @@ RULE = (
     "resolved via the palette and as AttrSpec cells; all 900 combinations of the spellings of a 6-field entry's slots "
     "(foreground '', 'default', colour, settings, both; background '', 'default', colour; mono None, '', setting; "
     "foreground_high None, '', 'default', colour, setting; background_high None, '', 'default', colour) at all 5 "
-    "depths. sgr: palettes (0-5 entries of all tuple forms, aliases, "
+    "depths; every kind of entry name (None, '', 0, a tuple, a string) x 5 depths x entry form (3 / 4 / 6 fields, "
+    "the name an alias of another entry, another name an alias of it) x registered before start / after start / "
+    "before and redefined after, drawn on glyph and blank cells beside another entry, a None cell and an undefined "
+    "name, plus an all-blank row in that name. sgr: palettes (0-5 entries of all tuple forms, names from 5 strings, "
+    "None, '', 0 and a tuple, aliases, "
     "re-registration, settings before or after the colour, '' as well as 'default' in every slot, late registration "
     "with a new list or with the first list object edited in place) x pre/post set_terminal_properties "
     "x up to 2 further depth switches with a redraw each, 1-6 columns x 1-2 rows of cells naming entries, aliases, "
@@ -160,6 +168,9 @@ ASSUMPTIONS = [
     "empty strings and empty lists are text markup (the grammar '[markup, ...] joined together' with zero items; "
     "/repo HEAD contains the fix that makes them contribute nothing)",
     "attribute names are str, int, tuple, None or AttrSpec; no two distinct generated names compare equal",
+    "palette entry names are attribute names (register_palette_entry's hint is 'str | None'; the property quantifies "
+    "over arbitrary hashable names): None, '', 0 and a tuple are registered like strings; AttrSpec objects and bools "
+    "are never used as entry names",
     "set_text() histories: the caller may keep the markup list it handed over, edit it in place and pass the same "
     "object again (urwid's docs put no freshness requirement on the argument); the widget is only looked at after "
     "set_text() has been called with the edited object, never between the edit and the call",
@@ -1288,11 +1299,24 @@ class _Capture:
         return "".join(p if isinstance(p, str) else p.decode("latin-1") for p in out)
 
 
+def _nkey(j):
+    """JSON attribute / palette entry name -> the hashable name urwid is given (str, int, None as they are,
+    ["t", ...] -> tuple); this is also the key of the palette model"""
+    if isinstance(j, list):
+        if not j or j[0] != "t":
+            raise Discard()
+        return dec_attr(j)
+    if isinstance(j, bool):
+        raise Discard()
+    return j
+
+
 def _entry_args(e):
     """JSON palette item -> tuple for register_palette"""
     if e[0] == "alias":
-        return (e[1], e[2])
+        return (_nkey(e[1]), _nkey(e[2]))
     _, name, arity, fg, bg, mono, fgh, bgh = e
+    name = _nkey(name)
     if arity == 3:
         return (name, fg, bg)
     if arity == 4:
@@ -1304,16 +1328,17 @@ def _register_model(model, items):
     """what the palette documentation says a register_palette(items) call defines"""
     for e in items:
         if e[0] == "alias":
-            if e[2] not in model:
+            new, like = _nkey(e[1]), _nkey(e[2])
+            if like not in model:
                 raise Discard()  # "which must appear before this tuple in the list"
-            prev = model.get(e[1])
+            prev = model.get(new)
             hist = [] if prev is None else [*prev["hist"], dict(prev, hist=[])]
-            model[e[1]] = dict(model[e[2]], alias=True, hist=hist)
+            model[new] = dict(model[like], alias=True, hist=hist)
         else:
             _, name, arity, fg, bg, mono, fgh, bgh = e
             if arity not in (3, 4, 6):
                 raise Discard()
-            model[name] = {
+            model[_nkey(name)] = {
                 "fg": fg, "bg": bg,
                 "mono": mono if arity >= 4 else None,
                 "fgh": fgh if arity == 6 else None,
@@ -1325,13 +1350,16 @@ def _register_model(model, items):
 
 def _cell_expect(cell, model, depth, bib):
     """-> (list of acceptable (fgset, bgset, flags), is_alias)"""
-    if isinstance(cell, list):
-        if cell[0] != "spec":
-            raise Discard()
+    if isinstance(cell, list) and cell and cell[0] == "spec":
         return [_expect_strings(cell[1], cell[2], cell[3], bib)], False
-    if cell in model:
-        return _entry_expect(model[cell], depth, bib), model[cell]["alias"]
+    key = _nkey(cell)
+    if key in model:
+        return _entry_expect(model[key], depth, bib), model[key]["alias"]
     return DEFAULT_EXPECT, False
+
+
+def _is_spec(cell):
+    return isinstance(cell, list) and bool(cell) and cell[0] == "spec"
 
 
 def _cell_ok(vc, glyph, acc):
@@ -1430,7 +1458,7 @@ def check_sgr(case):
                     continue
                 msg = (
                     f"[{enc} depth {depth} bright_is_bold {bib} draw {si}] cell {i} ({glyphs[i]!r}, attribute {cell!r}, "
-                    f"palette entry {_show_entry(model.get(cell)) if not isinstance(cell, list) else None}) decoded as fg {vc.fg!r} "
+                    f"palette entry {_show_entry(model.get(_nkey(cell))) if not _is_spec(cell) else None}) decoded as fg {vc.fg!r} "
                     f"bg {vc.bg!r} flags {sorted(vc.flags)}; the palette specifies {_show_acc(acc)}"
                 )
                 prio, clause = 0, "sgr-cell"
@@ -1442,7 +1470,8 @@ def check_sgr(case):
                 elif is_alias:
                     prio, clause = 2, "sgr-cell:alias"
                     # what the name meant at any earlier time (or nothing), under any of the settings so far
-                    stale = [DEFAULT_EXPECT] + [_entry_expect(h, d, b) for h in model[cell]["hist"] for d, b in states]
+                    stale = [DEFAULT_EXPECT] + [_entry_expect(h, d, b) for h in model[_nkey(cell)]["hist"]
+                                                for d, b in states]
                     if any(_cell_ok(vc, glyphs[i], acc2) for acc2 in stale):
                         msg += " [alias shown as the name's previous definition]"
                 if worst is None or prio < worst[0]:
@@ -1927,7 +1956,14 @@ def maps_classes(case):
 
 HIGH_SAMPLE = ["h0", "h7", "h8", "h15", "h16", "h20", "h87", "h88", "h200", "h255", "#000", "#f00", "#fa8", "#068",
                "#8cf", "#fff", "g0", "g50", "g100", "g#80", "#123456", "#ff8000", "#000000"]
-NAMES = ["n1", "n2", "n3", "body", "hl"]
+# Palette entry names come from the whole domain of attribute names (register_palette_entry: "name: str | None";
+# the quantifier: "arbitrary (hashable) attribute names"): ordinary strings, the name None (the entry every Screen
+# starts with, and that an application re-registers to colour unmarked text, padding and fill), and the
+# falsy-but-valid / non-str names '', 0 and a tuple.  Cells pick from the same pool, so each of them also occurs as
+# an *undefined* name.
+_STR_NAMES = ["n1", "n2", "n3", "body", "hl"]
+ODD_NAMES = [None, "", 0, ["t", "n1", 1]]
+NAMES = _STR_NAMES + ODD_NAMES
 ALIAS_NAMES = NAMES + ["al1", "al2"]
 
 
@@ -2054,9 +2090,13 @@ def _forms(case):
     return forms
 
 
+def _defined_names(case):
+    return {_nkey(e[1]) for e in case["palette"] + case.get("late", [])}
+
+
 def sgr_nontrivial(case):
-    names = {e[1] for e in case["palette"] + case.get("late", [])}
-    return len(_forms(case)) >= 2 and any(isinstance(c, str) and c in names for c in case["cells"])
+    names = _defined_names(case)
+    return len(_forms(case)) >= 2 and any(not _is_spec(c) and _nkey(c) in names for c in case["cells"])
 
 
 def sgr_classes(case):
@@ -2070,10 +2110,17 @@ def sgr_classes(case):
         out.append("sgr:depth-switch-between-draws")
     if case.get("late"):
         out.append("sgr:registered-after-start")
-    if any(isinstance(c, list) for c in case["cells"]):
+    if any(_is_spec(c) for c in case["cells"]):
         out.append("sgr:AttrSpec-cell")
-    if any(c == "undefined" for c in case["cells"]):
+    names = _defined_names(case)
+    shown = {_nkey(c) for c in case["cells"] if not _is_spec(c)}
+    if any(c not in names for c in shown):
         out.append("sgr:undefined-name")
+    for label, key in (("None", None), ("empty-string", ""), ("int", 0), ("tuple", ("n1", 1))):
+        if key in names and key in shown:
+            out.append(f"sgr:entry-named-{label}-displayed")
+        elif key in shown and key is not None:
+            out.append(f"sgr:undefined-{label}-name")
     return out
 
 
@@ -2144,6 +2191,29 @@ def sweep_cases(ctx):
                 cells.append(f"v{base + n}")
             yield {"enc": "utf-8", "pre": None, "palette": pal, "post": [depth, bool(base & 16)], "late": [],
                    "more": [], "cols": len(cells), "cells": cells, "glyphs": "x" * len(cells)}
+    # every kind of entry name -- None (the entry a Screen starts with; re-registering it is how unmarked text,
+    # padding and fill get colours), '', 0, a tuple, an ordinary string -- x every depth x every entry form
+    # (3 / 4 / 6 fields; the name an alias of another entry; another name an alias of it) x registered before
+    # start() / after start() / both (redefinition); shown on glyph and on blank cells next to a cell of another
+    # entry, a None cell and an undefined name, plus a second row that is entirely blank in that name
+    hi = ["light red,bold", "dark blue", "underline", "#f00,strikethrough", "#006"]
+    lo = ["dark green", "brown", "standout", "h20", "h7"]
+    for depth in DEPTHS:
+        for ni, name in enumerate([*ODD_NAMES, "n1"]):
+            other = "n2"
+            forms = [[["e", name, a, *hi]] for a in (3, 4, 6)]
+            forms.append([["e", other, 6, *lo], ["alias", name, other]])
+            forms.append([["e", name, 6, *hi], ["alias", other, name]])
+            for fi, form in enumerate(forms):
+                for when in ("before", "late", "both"):
+                    rest = [] if any(e[1] == other for e in form) else [["e", other, 6, *lo]]
+                    pal = rest + (form if when == "before" else
+                                  [["e", name, 4, "yellow", "dark magenta", "bold", None, None]] if when == "both" else [])
+                    late = [] if when == "before" else form
+                    cells = [name, None, "undefined", other, name, None, "undefined"] + [name] * 7
+                    yield {"enc": "utf-8", "pre": None, "palette": pal, "post": [depth, bool((ni + fi) & 1)],
+                           "late": late, "late_same": False, "more": [], "cols": 7, "cells": cells,
+                           "glyphs": "xxxx   " + " " * 7}
     # '#rgb' cube shortcuts
     step = 1 if full else 5
     vals = list(range(0, 4096, step))
@@ -2166,7 +2236,8 @@ def shard(ctx):
     full = ctx.tier == "thorough"
     # cheapest first: if the wall-clock budget runs out on a loaded machine the sweeps have been done
     ctx.sweep("sgr_sweep", sweep_cases(ctx), nontrivial=None, classify=None,
-              exhaustive_name="17x17 basic pairs x depths x bright_is_bold; 64 setting subsets; h0..h255; #rgb")
+              exhaustive_name="17x17 basic pairs x depths x bright_is_bold; 64 setting subsets; h0..h255; slot spellings; "
+                              "entry names None / '' / 0 / tuple / str x depth x form x registration time; #rgb")
     if ctx.failure is None:
         ctx.sweep("markup_short", short_cases(ctx, maxlen, full), nontrivial=markup_nontrivial, classify=None,
                   exhaustive_name=f"per-character tags: strings of length <= {maxlen} over {6 if full else 5} letters x "
@@ -2224,9 +2295,9 @@ def _alias_unpropagated(case, draw, name):
     def reg(items):
         for e in items:
             if e[0] == "alias":
-                pending.add(e[1])
+                pending.add(_nkey(e[1]))
             else:
-                pending.discard(e[1])
+                pending.discard(_nkey(e[1]))
 
     props(case.get("pre"))
     reg(case["palette"])
@@ -2247,7 +2318,7 @@ def _known_alias_not_signalled(sub, case, v):
     if not m:
         return False
     name = case["cells"][int(m.group(2))]
-    return isinstance(name, str) and _alias_unpropagated(case, int(m.group(1)), name)
+    return not _is_spec(name) and _alias_unpropagated(case, int(m.group(1)), _nkey(name))
 
 
 def _known_large_h_not_first(sub, case, v):
